@@ -57,17 +57,14 @@ func (c *vctx) cancel(err error) {
 func withVirtualDeadline(p Context, at int64) (Context, CancelFunc) {
 	c := &vctx{Context: p, done: make(chan struct{}), deadline: time.Unix(0, at)}
 	stop := context.AfterFunc(p, func() { c.cancel(p.Err()) })
-	var dl *sched.Deadline
 	if at <= sched.PeekNS() {
 		c.cancel(DeadlineExceeded)
-	} else {
-		dl = sched.AddDeadline(at, func() { c.cancel(DeadlineExceeded) })
 	}
+	// registered even when already expired: a following virtual sleep must not outlast it
+	dl := sched.AddDeadline(at, func() { c.cancel(DeadlineExceeded) })
 	return c, func() {
 		stop()
-		if dl != nil {
-			dl.Remove()
-		}
+		dl.Remove()
 		c.cancel(Canceled)
 	}
 }
